@@ -42,7 +42,7 @@ PROPS = {
         "assumptions": COMMON_ASSUME,
     },
     "C05": {
-        "rules": ["R-DEDUP", "R-STUB", "R-ALPHAGUARD"],
+        "rules": ["R-DEDUP", "R-DUPSKIP", "R-STUB", "R-ALPHAGUARD"],
         "explanation": "Only the de-duplication protocol and the configuration guard are decided: the occurrence array is sorted over exactly [a,a+n) "
                        "and carries the 0 sentinel at a[n] before a duplicate-skipping iterator is created, is allocated with n+1 entries, and the "
                        "BWTsampling==0 configuration is an effect-free stub.",
@@ -67,7 +67,7 @@ PROPS = {
         "assumptions": COMMON_ASSUME,
     },
     "C07": {
-        "rules": ["R-STATE", "R-INITCOVER", "R-EXTENT", "R-KILLUSE", "R-DANGLING", "R-ALPHAGUARD", "R-DEDUP", "R-IDGUARD", "R-SHIFT", "R-CLAMP", "R-ZEROFILL", "R-GROW"],
+        "rules": ["R-STATE", "R-INITCOVER", "R-EXTENT", "R-KILLUSE", "R-DANGLING", "R-ALPHAGUARD", "R-DEDUP", "R-IDGUARD", "R-SHIFT", "R-CLAMP", "R-ZEROFILL", "R-GROW", "R-SLACK"],
         "explanation": "Structural preconditions of memory safety, each a necessary condition with confirmed instances: no operation consults state the "
                        "creation path never set, saved extents equal allocated extents, nothing reachable from a dictionary is freed by an operation or "
                        "left dangling by a loader, pattern bytes are range-checked before indexing, duplicate iterators have their sentinel, ids are "
@@ -75,7 +75,7 @@ PROPS = {
         "decided": ["no uninitialised/NULL state is consulted (R-STATE, R-INITCOVER, R-ZEROFILL)", "no over-read at save (R-EXTENT)",
                     "no use after free across API histories, no dangling loader state (R-KILLUSE, R-DANGLING)",
                     "index guards: alphabet, id range, sentinel (R-ALPHAGUARD, R-IDGUARD, R-DEDUP)", "no undefined shift (R-SHIFT)", "clamped bucket size (R-CLAMP)",
-                    "growth guards re-test after growing (R-GROW, loop form only)"],
+                    "growth guards re-test after growing (R-GROW, loop form)", "PFC guard slack covers the largest appended extent for every length / shared prefix (R-SLACK)"],
         "not_decided": ["all index arithmetic over decoded data (bucket scans, chunk decoding with b_remain, expandRule recursion depth, scratch buffers sized "
                         "from maxlength/maxcomplength), buffer growth estimates, suffix sorting on tiny inputs, termination: a pass means the structural "
                         "preconditions hold, not that the library is memory safe"],
@@ -144,7 +144,7 @@ PROPS = {
         "assumptions": COMMON_ASSUME,
     },
     "C13": {
-        "rules": ["R-OUTLEN", "R-WINDOW", "R-DEDUP", "R-STUB", "R-QUERYPURE"],
+        "rules": ["R-OUTLEN", "R-WINDOW", "R-DEDUP", "R-DUPSKIP", "R-FMMAP", "R-STUB", "R-QUERYPURE"],
         "explanation": "Iterator protocol rules: every next() stores the length on every path to a non-null return and advances a field that "
                        "hasNext() reads (or consumes its work list) on every path; windows given at every extractTable/extractPrefix site match "
                        "the class protocol; duplicate-skipping iterators never read past their array (sentinel + extent); iterator steps write "
